@@ -162,6 +162,8 @@ TRACE_JAVA = ["-Xss1g", "-XX:+UseSerialGC", "-Xmx3g", "-Dtlc2.tool.queue.IStateQ
 def trace_cfg(consts):
     if "CheckLayout" in consts and "WeightsOnly" not in consts:      # TraceVerify's optional mode
         consts = dict(consts, WeightsOnly="FALSE")
+    if "CrossFresh" in consts and "NoncesOnly" not in consts:        # TraceProve's optional mode
+        consts = dict(consts, NoncesOnly="FALSE")
     c = "CONSTANTS\n" + "".join(f"  {k} = {v}\n" for k, v in consts.items())
     return c + "SPECIFICATION Spec\nCONSTRAINT Progress\nPOSTCONDITION Accepted\nCHECK_DEADLOCK FALSE\n"
 
@@ -208,7 +210,7 @@ def validate_trace_file(module, consts, trace_path, name, timeout=1500):
     return states, consumed, rejections
 
 
-def trace_stage(prop, name, scen, seed, module="TraceVerify", consts=None, calls="verify", arith=True, parallel=10, per_file=6, timeout=1500):
+def trace_stage(prop, name, scen, seed, module="TraceVerify", consts=None, calls="verify", arith=True, parallel=10, per_file=6, timeout=1500, nonces=False):
     """Run scenarios on the free-module group with all instruments on, validate the recorded traces with TLC."""
     from concurrent.futures import ThreadPoolExecutor
     st = StageResult(f"trace:{module}:{name}")
@@ -220,7 +222,7 @@ def trace_stage(prop, name, scen, seed, module="TraceVerify", consts=None, calls
         for s in scen:
             fh.write(json.dumps(s) + "\n")
     tp = os.path.join(wd, "trace.ndjson")
-    args = ["trace", "--scen", sp, "--out", tp, "--seed", str(seed), "--calls", calls] + (["--arith"] if arith else [])
+    args = ["trace", "--scen", sp, "--out", tp, "--seed", str(seed), "--calls", calls] + (["--nonces"] if nonces else ["--arith"] if arith else [])
     info = json.loads(vlib.run_harness(args))
     st.notes["recorded"] = info
     # split by scenario groups so files validate in parallel
@@ -252,7 +254,7 @@ def trace_stage(prop, name, scen, seed, module="TraceVerify", consts=None, calls
         st.evaluations += consumed
         for bad, text, ev in rejs:
             st.add_violation(f"[{module}/{name}] {text}",
-                             {"kind": "trace", "module": module, "consts": consts, "calls": calls, "arith": arith, "seed": seed, "index": bad,
+                             {"kind": "trace", "module": module, "consts": consts, "calls": calls, "arith": arith, "nonces": nonces, "seed": seed, "index": bad,
                               "scenario": scen[bad], "message": text})
     st.traces += info["calls"] - len(st.violations)
     for s in scen:
@@ -269,7 +271,7 @@ def replay_trace(rep):
     with open(sp, "w") as fh:
         fh.write(json.dumps(rep["scenario"]) + "\n")
     tp = os.path.join(wd, "trace.ndjson")
-    args = ["trace", "--scen", sp, "--out", tp, "--seed", str(rep["seed"]), "--calls", rep["calls"], "--first-index", str(rep["index"])] + (["--arith"] if rep["arith"] else [])
+    args = ["trace", "--scen", sp, "--out", tp, "--seed", str(rep["seed"]), "--calls", rep["calls"], "--first-index", str(rep["index"])] + (["--nonces"] if rep.get("nonces") else ["--arith"] if rep["arith"] else [])
     vlib.run_harness(args)
     _, _, rejs = validate_trace_file(rep["module"], rep["consts"], tp, "replay_tv")
     return [r[1] for r in rejs]
